@@ -78,7 +78,7 @@ def main():
             break
         except sqlite3.OperationalError as e:
             tries += 1
-            if tries > 400:
+            if tries > 4000:
                 raise
             time.sleep(0.01)
     c.close()
